@@ -152,11 +152,27 @@ def alt_is_benign(table, rngs, K):
     return True
 
 
-def flows_into(fn, start_id, sink_test, table=None, subject=None):
+def compose(mod, tab, chain):
+    """the length table seen through constant lookup tables: `storageWidth[minimalWidth(v)]`"""
+    from .ival import global_bytes
+    if not chain: return tab
+    if not isinstance(tab, tuple) or not tab or tab[0] == "name": return ("mapped", tab, chain)
+    parts = []
+    for (lo, hi, ln) in tab:
+        for (gname, coff, stride, size) in chain:
+            by = global_bytes(mod, gname); off = coff + ln * stride
+            if by is None or off < 0 or off + size > len(by): return ("mapped", tab, chain)
+            ln = int.from_bytes(by[off:off + size], "little")
+        if parts and parts[-1][2] == ln and parts[-1][1] + 1 == lo: parts[-1] = (parts[-1][0], hi, ln)
+        else: parts.append((lo, hi, ln))
+    return tuple(parts)
+
+
+def flows_into(fn, start_id, sink_test, table=None, subject=None, maps_out=None):
     """does the value %start_id reach (through casts, adds, phis, selects) an instruction accepted by sink_test?
     Returns (reached, alternatives): the constants that a phi / select merges with the value *before* it is first added to anything,
     i.e. while it still stands for one length - `n <= 255 ? 1 : len(n)` has the alternative 1, an accumulator `size = phi(0, size+len)` none."""
-    seen = set(); work = [(start_id, False)]; reached = False; alts = set()
+    seen = set(); work = [(start_id, False, ())]; reached = False; alts = set()
     users = {}
     for i in fn.insts():
         ops = list(i.ops) + ([inc["v"] for inc in i["incoming"]] if i.op == "phi" else [])
@@ -164,17 +180,27 @@ def flows_into(fn, start_id, sink_test, table=None, subject=None):
             if o["k"] == "inst": users.setdefault(o["v"], []).append(i)
             elif o["k"] == "arg": users.setdefault(("arg", o["v"]), []).append(i)
     while work:
-        v, added = work.pop()
-        if (v, added) in seen: continue
-        seen.add((v, added))
+        v, added, maps = work.pop()
+        if (v, added, maps) in seen: continue
+        seen.add((v, added, maps))
         for i in users.get(v, ()):
-            if sink_test(i, v): reached = True; continue
+            if i.op == "getelementptr" and i.ops[0]["k"] == "global" and len(i["var"]) == 1 and i["var"][0]["idx"]["k"] == "inst" and i["var"][0]["idx"]["v"] == v \
+                    and (fn.mod.globals.get(i.ops[0]["v"]) or {}).get("constant"):
+                # index into a read-only lookup table (`storageWidth[w]`): what is loaded from there is the (translated) length
+                for ld in users.get(i.id, ()):
+                    if ld.op == "load" and ld.id >= 0 and len(maps) < 3:
+                        work.append((ld.id, added, maps + ((i.ops[0]["v"], i["coff"], i["var"][0]["stride"], ld["size"]),)))
+                continue
+            if sink_test(i, v):
+                reached = True
+                if maps_out is not None: maps_out.add(maps)
+                continue
             if i.op == "store" and i.ops[0]["k"] == "inst" and i.ops[0]["v"] == v:
                 # kept in a local array for a later pass (`widths[i] = w; ... offset += widths[i]`): what is loaded from that array is it
                 root = _alloca_root(fn, i.ops[1])
                 if root is not None:
                     for ld in fn.insts():
-                        if ld.op == "load" and ld.id >= 0 and _alloca_root(fn, ld.ops[0]) == root: work.append((ld.id, added))
+                        if ld.op == "load" and ld.id >= 0 and _alloca_root(fn, ld.ops[0]) == root: work.append((ld.id, added, maps))
                 continue
             if i.id < 0: continue
             if i.op == "call" and i.get("callee") and not i["callee"].startswith("llvm.") and fn.mod.fn(i["callee"]) is not None and not fn.mod.fn(i["callee"]).decl:
@@ -183,10 +209,10 @@ def flows_into(fn, start_id, sink_test, table=None, subject=None):
                 for k in range(i["nargs"]):
                     o = i.ops[k]
                     if (o["k"] == "inst" and o["v"] == v) or (o["k"] == "arg" and ("arg", o["v"]) == v):
-                        if param_reaches_return(g, k): work.append((i.id, True))
+                        if param_reaches_return(g, k): work.append((i.id, True, maps))
                 continue
-            if i.op in ("zext", "sext", "trunc"): work.append((i.id, added))
-            elif i.op in ("add", "sub", "mul", "shl"): work.append((i.id, True))      # summed, or charged once per element
+            if i.op in ("zext", "sext", "trunc"): work.append((i.id, added, maps))
+            elif i.op in ("add", "sub", "mul", "shl"): work.append((i.id, True, maps))      # summed, or charged once per element
             elif i.op in ("phi", "select"):
                 if not added:
                     others = list(enumerate(inc["v"] for inc in i["incoming"])) if i.op == "phi" else [(1, i.ops[1]), (2, i.ops[2])]
@@ -196,7 +222,7 @@ def flows_into(fn, start_id, sink_test, table=None, subject=None):
                         rng = guard_range(fn, i, n, subject) if subject is not None else None
                         if rng is not None and alt_is_benign(table, rng, K): continue       # the constant equals the length there
                         alts.add(K if rng is not None else ("ungoverned", K))
-                work.append((i.id, added))
+                work.append((i.id, added, maps))
     return reached, tuple(sorted(alts, key=repr))
 
 
@@ -237,10 +263,13 @@ def size_terms(fn, mod, kind, depth=0):
             return u.op == "ret"
         vals = [i.ops[k] for k in range(i["nargs"]) if not i.ops[k]["t"].endswith("*")]
         tab = length_table(mod, c) if len(vals) == 1 else None
-        ok, alts = flows_into(fn, i.id, sink, tab, vals[0] if len(vals) == 1 else None)
+        chains = set()
+        ok, alts = flows_into(fn, i.id, sink, tab, vals[0] if len(vals) == 1 else None, chains)
         if not ok: continue
         if tab is not None and tab[0] != "name":
-            t = (tab, role(fn, mod, vals[0]), alts); out.add(t); detail.append((c, t[1], i.line)); continue
+            for ch in sorted(chains or {()}):
+                t = (compose(mod, tab, ch), role(fn, mod, vals[0]), alts); out.add(t); detail.append((c, t[1], i.line))
+            continue
         # a helper that is not itself a length function of one value: its own terms, with parameter roles replaced by the actuals'
         inner = set()
         if depth < 2 and not g.decl:
